@@ -618,9 +618,11 @@ static char *find_file(char *pattern) {
 }
 
 // Returns true if a given file exists.
+// True if `path` names a file that can be read as a source or object
+// file; a directory of that name is not one.
 bool file_exists(char *path) {
   struct stat st;
-  return !stat(path, &st);
+  return !stat(path, &st) && !S_ISDIR(st.st_mode);
 }
 
 static char *find_libpath(void) {
